@@ -118,6 +118,24 @@ func twoPhase(fl *ast.FuncLit) bool {
 	return contains(second.Body, "d(f).Set(t[i])") || containsAssign(second.Body, "", ".Set(t[i])")
 }
 
+// twoPhaseDefine: the multi-define variant — a loop over svalue that reads every source (`t[i] = s(f)`, the
+// reflect.Value of the cell the source denotes now) or copies it, then a loop that re-allocates and stores each
+// destination without evaluating any source.
+func twoPhaseDefine(fl *ast.FuncLit) bool {
+	ls := rangeLoops(fl)
+	if len(ls) != 2 {
+		return false
+	}
+	first, second := ls[0], ls[1]
+	if text(first.X) != "svalue" || !(contains(first.Body, "t[i] = s(f)") || contains(first.Body, "t[i].Set(s(f))")) {
+		return false
+	}
+	if contains(second.Body, "s(f)") {
+		return false
+	}
+	return contains(second.Body, "data[j].Set(v)") || contains(second.Body, "data[j].Set(t[i])")
+}
+
 func extractAssign(fd *ast.FuncDecl, f *facts) {
 	if fd == nil {
 		f.miss("func assign")
@@ -179,7 +197,7 @@ func extractAssign(fd *ast.FuncDecl, f *facts) {
 	if mdExec == nil {
 		f.miss("assign: exec of the multi-define branch")
 	} else {
-		f.set("multiDefineTemps", twoPhase(mdExec))
+		f.set("multiDefineTemps", twoPhaseDefine(mdExec))
 		f.set("multiDefineRedeclAssigns", strings.Contains(text(mdExec), "redeclared"))
 		if !containsAssign(mdExec, "data[j] = reflect.New(", ".Elem()") {
 			f.set("defineFresh", false)
@@ -235,6 +253,9 @@ func extractCfg(file *ast.File, f *facts) (clauseHash string) {
 		return
 	}
 	var callArm, litArm *ast.CaseClause
+	// an earlier arm with an empty body that catches calls and composite literals of multiple assignments
+	// keeps the two shortcut arms for single assignments only
+	guardBefore := false
 	for _, c := range opt.Body.List {
 		cc := c.(*ast.CaseClause)
 		if len(cc.List) != 1 {
@@ -246,6 +267,9 @@ func extractCfg(file *ast.File, f *facts) (clauseHash string) {
 			callArm = cc
 		case strings.HasPrefix(t, "src.action == aCompositeLit"):
 			litArm = cc
+		case callArm == nil && litArm == nil && len(cc.Body) == 0 && strings.HasPrefix(t, "n.nleft > 1 && (") &&
+			strings.Contains(t, "isCall(src)") && strings.Contains(t, "src.action == aCompositeLit"):
+			guardBefore = true
 		}
 	}
 	redirects := func(cc *ast.CaseClause) bool {
@@ -260,7 +284,7 @@ func extractCfg(file *ast.File, f *facts) (clauseHash string) {
 		t := text(cc.List[0])
 		return strings.Contains(t, "nleft") || strings.Contains(t, "nright") || strings.Contains(t, "len(n.child)")
 	}
-	f.set("shortcutGuardsSingle", guards(callArm) && guards(litArm))
+	f.set("shortcutGuardsSingle", guardBefore || (guards(callArm) && guards(litArm)))
 	return
 }
 
@@ -281,7 +305,7 @@ func main() {
 		f := &facts{vals: map[string]bool{}}
 		for _, n := range []string{"assignCopies", "multiTemps", "multiDefineTemps", "multiDefineRedeclAssigns", "defineFresh",
 			"callCopiesArgs", "rangeSnapshotsArray", "closureClonesFrame", "callShortcut", "litShortcut", "shortcutGuardsSingle",
-			"structLitSetsSlot", "arrayLitSets", "lookup2OnlyIfValid", "appendArgsAreSlots"} {
+			"structLitSetsSlot", "structLitAssignSets", "arrayLitSets", "lookup2OnlyIfValid", "appendArgsAreSlots"} {
 			f.set(n, false)
 		}
 		extractAssign(common.FindFunc(run, "", "assign"), f)
@@ -332,6 +356,17 @@ func main() {
 				return true
 			})
 			f.set("structLitSetsSlot", ok)
+			// an arm for plain assignments that stores through the existing variable
+			asg := false
+			ast.Inspect(fd, func(x ast.Node) bool {
+				cc, isCC := x.(*ast.CaseClause)
+				if isCC && len(cc.List) == 1 && text(cc.List[0]) == "n.anc.kind == assignStmt" && contains(cc, "d.Set(a)") &&
+					!contains(cc, "getFrame(f, l).data[frameIndex] = a") {
+					asg = true
+				}
+				return true
+			})
+			f.set("structLitAssignSets", asg)
 		} else {
 			f.miss("func doComposite")
 		}
@@ -344,20 +379,23 @@ func main() {
 		}
 
 		if fd := common.FindFunc(run, "", "getIndexMap2"); fd != nil {
-			n, all := 0, true
+			n, only, zero := 0, 0, 0
 			ast.Inspect(fd, func(x ast.Node) bool {
 				is, ok := x.(*ast.IfStmt)
-				if ok && text(is.Cond) == "v.IsValid()" {
+				if ok && text(is.Cond) == "v.IsValid()" && len(is.Body.List) == 1 && text(is.Body.List[0]) == "dest(f).Set(v)" {
 					n++
-					if is.Else != nil || len(is.Body.List) != 1 || text(is.Body.List[0]) != "dest(f).Set(v)" {
-						all = false
+					switch {
+					case is.Else == nil:
+						only++
+					case text(is.Else) == "{ dest(f).Set(z) }":
+						zero++
 					}
 				}
 				return true
 			})
-			f.set("lookup2OnlyIfValid", n == 2 && all)
-			if n != 2 {
-				f.miss("getIndexMap2: two guarded stores")
+			f.set("lookup2OnlyIfValid", n == 2 && only == 2)
+			if n != 2 || (only != 2 && zero != 2) {
+				f.miss("getIndexMap2: two guarded stores (both without else, or both storing the zero value otherwise)")
 			}
 		} else {
 			f.miss("func getIndexMap2")
@@ -381,14 +419,25 @@ func main() {
 		}
 		b.WriteString(" }\n")
 		fmt.Fprintf(&b, "/-- shapes the extractor looked for and did not find -/\ndef unrecognised : List String := %s\n", common.LeanStrList(f.unrecognised))
-		runNames := [][2]string{{"", "assign"}, {"", "assignFromCall"}, {"", "addr"}, {"", "deref"}, {"", "call"}, {"", "getIndexArray"},
+		runNames := [][2]string{{"", "assign"}, {"", "assignFromCall"}, {"", "addr"}, {"", "deref"}, {"", "getIndexArray"},
 			{"", "getIndexMap"}, {"", "getIndexMap2"}, {"", "getFunc"}, {"", "getIndexSeq"}, {"", "getPtrIndexSeq"}, {"", "arrayLit"},
 			{"", "mapLit"}, {"", "doComposite"}, {"", "_range"}, {"", "loopVarKey"}, {"", "loopVarVal"}, {"", "_append"}, {"", "appendSlice"}, {"", "_copy"},
 			{"", "_delete"}, {"", "slice"}, {"", "slice0"}}
 		hr := common.HashTable(fsetR, run, runNames)
+		// of `call` only the closure that performs an ordinary (not deferred, not go) call is transcribed: the last
+		// `n.exec = func…` of the function (the defer branch above it belongs to C06)
+		callHash := "unrecognised: call exec"
+		if fd := common.FindFunc(run, "", "call"); fd != nil {
+			for _, st := range fd.Body.List {
+				if fl := execLit(st); fl != nil {
+					callHash = hash(fl)
+				}
+			}
+		}
 		hv := common.HashTable(fsetV, val, [][2]string{{"", "genValueRangeArray"}, {"", "genValueArray"}, {"", "genDestValue"}})
 		b.WriteString("/-- fingerprints of the functions that Model/Share.lean transcribes -/\ndef sourceHashes : List (String × String) :=\n  ")
-		b.WriteString(strings.TrimSuffix(hr, "]") + ",\n   " + strings.TrimPrefix(strings.TrimSuffix(hv, "]"), "[") + ",\n   (" +
+		b.WriteString(strings.TrimSuffix(hr, "]") + ",\n   (" + common.LeanStr("call: exec of an ordinary call") + ", " + common.LeanStr(callHash) + "),\n   " +
+			strings.TrimPrefix(strings.TrimSuffix(hv, "]"), "[") + ",\n   (" +
 			common.LeanStr("cfg.go: case assignStmt, defineStmt") + ", " + common.LeanStr(clauseHash) + ")]\n")
 		b.WriteString("end YaegiVerif.Generated.C04\n")
 		return b.String(), nil
